@@ -1,0 +1,28 @@
+//go:build verif
+
+// Contracts for the write batcher, read by /verif/govc (C05, C06): a FIFO queue of pending writes.
+// This file contains comments only; it is compiled only with -tags verif.
+
+package batching
+
+// Append puts the object at the tail: nothing already queued moves or is dropped (C05: logs reach the store in the
+// order they were chained; C06: every acknowledged write was queued exactly once).
+//@ func (*batching.Batcher[T]).Append
+//@   requires s != nil // C05 C06
+//@   ensures len(s.pending) == old(len(s.pending)) + 1 && s.pending[len(s.pending)-1] != nil && s.pending[len(s.pending)-1].object == object // C05 C06
+//@   ensures forall i0 in 0..old(len(s.pending)) :: s.pending[i0] == old(s.pending[i0]) // C05 C06
+//@   update enqueued = enqueued + 1
+//@   update queueTail = queueTail + 1
+//@   modifies pkg:batching, chan, ghost enqueued, ghost queueTail
+//@   property C05 C06
+
+// nextBatch hands out the head of the queue, in order, at most maxBatchSize items, and removes exactly those
+//@ func (*batching.Batcher[T]).nextBatch
+//@   requires s != nil && s.maxBatchSize > 0
+//@   ensures ret == nil <==> old(len(s.pending)) == 0 // C05 C06
+//@   ensures ret != nil ==> len(ret.items) == min(old(len(s.pending)), s.maxBatchSize) && len(s.pending) == old(len(s.pending)) - len(ret.items) // C05 C06
+//@   ensures ret != nil ==> (forall i1 in 0..len(ret.items) :: ret.items[i1] == old(s.pending[i1])) // C05 C06
+//@   ensures ret != nil ==> (forall i2 in 0..len(s.pending) :: s.pending[i2] == old(s.pending)[i2 + len(ret.items)]) // C05 C06
+//@   modifies pkg:batching
+//@   nopanic
+//@   property C05 C06
